@@ -76,6 +76,7 @@ def run(tier):
     rep.rule('R14.2', 'timeouts of active states are non-zero and at most 30 s; idle has none', floor=3)
     rep.rule('R14.3', 'tick: inactivity deadline expired => mapping idle, charge counter cleared, session table emptied (from every state, idle included)', floor=6)
     rep.rule('R14.4', 'mapping_reset_inactive_timeout arms a 30 s deadline', floor=1)
+    rep.rule('R14.5', 'tick: while the 30 s inactivity deadline is unarmed or has not expired, the tick leaves the mapping state where it is', floor=3)
     # roles from the documented life-cycle
     op = oracle.OPCODES
     roles = {'idle': A.initial}
@@ -107,6 +108,9 @@ def run(tier):
             rep.check(0 < T <= 30, 'R14.2', '%s|timeout' % role,
                       'state %s has timeout %d s; the property requires non-zero and at most 30 s' % (role, T), function=A.ctor, node=A.ix.functions[A.ctor])
     tick_checks(rep, prog, A, roles)
+    from .automata_common import automaton_writers
+    rep.rule('R14.6', 'who-may-write the automaton objects (current state, time stamp, tables): only constructors, switch functions and the tick', floor=6)
+    automaton_writers(rep, prog, 'R14.6')
     rep.analysed.update({'table_rows': A.rows, 'timeouts': A.timeouts, 'roles': roles, 'cells_compared': cells})
     return finish(rep, 'proof',
                   'The constructor table and the switch function are interpreted abstractly (input = every int, elapsed = symbolic); '
@@ -173,6 +177,11 @@ def tick_checks(rep, prog, A, roles):
             # the clock reading used for the deadline test is a seconds clock; expired means some clock.s >= D
             exp = any(s2.prove_le(D, ('sym', 'clock.s.%d' % i, 1, 1 << 63)) for i in range(s2.tags.get('clk.s', 0)))
             if not exp:
+                a2 = s2.objs[A.oid]
+                cs = s2.dom(a2.cells[((), A.field_off('current_state'))][1])
+                rep.check(cs.const() == s, 'R14.5', '%s|tick-quiet' % role,
+                          'a tick on which the 30 s inactivity deadline has not expired moves the mapping engine from %s to state %s: only frames (and that deadline) may move it'
+                          % (role, cs), function='automata_tick')
                 continue
             fired += 1
             a2 = s2.objs[A.oid]
